@@ -66,30 +66,39 @@ Definition ex_api : api nat (list bytes) bool :=
   {| a_schema := 0%nat; a_features := Some (fun c : bool => if c then [b "beta"] else []);
      a_default_cost := (1, 0)%Z; a_hook := true; a_pq := true |}.
 
-Definition ex_respond := respond [] ex_pv ex_is_sub ex_exec ex_sub ex_pq fixed ex_parse ex_parse ex_render.
+(** a marshaller: query bytes, then the cost as one byte (enough to see both in the payload) *)
+Definition ex_marshal (r : Resp) : option bytes :=
+  match r with (q, _, _, _, c) => Some (q ++ [Z.to_N c])%list end.
+
+Definition ex_respond := respond [] ex_pv ex_is_sub ex_exec ex_sub ex_pq ex_marshal fixed ex_parse ex_parse ex_render.
 
 (** the hypotheses of C17_transport_same_response hold for GET against graphql-transport-ws ... *)
 Example ex_same_response :
   ex_respond HttpGet ex_api true (b "1") ex_o = ex_respond WsTransportWs ex_api true (b "2") ex_o
-  /\ exists rs, fst (ex_respond HttpGet ex_api true (b "1") ex_o) = Some rs.
+  /\ exists body, fst (ex_respond HttpGet ex_api true (b "1") ex_o) = Some [body].
 Proof.
   refine (C17_transport_same_response ex_render ex_parse ex_parse ex_clean ex_faithful ex_faithful ex_render_nonempty
-            nat (list bytes) bool bytes Resp [] ex_pv ex_is_sub ex_exec ex_sub ex_pq (fun _ _ _ => eq_refl)
-            HttpGet WsTransportWs ex_api true (b "1") (b "2") ex_o ex_wf eq_refl eq_refl _ (fun _ _ _ => eq_refl)).
-  intros j [H|H]; [exact (ex_clean_all HttpGet j H)|exact (ex_clean_all WsTransportWs j H)].
+            nat (list bytes) bool bytes Resp [] ex_pv ex_is_sub ex_exec ex_sub ex_pq ex_marshal (fun _ _ _ => eq_refl)
+            HttpGet WsTransportWs ex_api true (b "1") (b "2") ex_o ex_wf eq_refl eq_refl _ (fun _ _ _ => eq_refl) _).
+  - intros j [H|H]; [exact (ex_clean_all HttpGet j H)|exact (ex_clean_all WsTransportWs j H)].
+  - intros [[[[q v] n] f] c] tr _. discriminate.
 Qed.
 
 (** ... and the common value is the executed operation with the feature set and the cost *)
 Example ex_response_value :
-  fst (ex_respond HttpPostUrlQuery ex_api true (b "1") ex_o) = Some [(o_query ex_o, Some ex_vars, b "Q", [b "beta"], 2%Z)].
-Proof. vm_compute. reflexivity. Qed.
+  fst (ex_respond HttpPostUrlQuery ex_api true (b "1") ex_o) = Some [(o_query ex_o ++ [2%N])%list]
+  /\ snd (ex_respond WsGraphqlWs ex_api true (b "1") ex_o) =
+     [EvFeatures true; EvValidate [b "beta"] (o_query ex_o) (b "Q") (Some ex_vars);
+      EvExecute {| x_query := o_query ex_o; x_doc := o_query ex_o; x_opname := b "Q"; x_vars := Some ex_vars;
+                   x_features := [b "beta"]; x_ext := None |} 2%Z].
+Proof. split; vm_compute; reflexivity. Qed.
 
 (** a malformed envelope: POST application/json with body "{" *)
 Definition ex_bad : envelope := {| e_method := m_post; e_media := mt_json; e_url := [(k_query, o_query ex_o)]; e_body := b "{" |}.
 Example ex_bad_malformed : http_well_formed ex_parse ex_bad = false.
 Proof. reflexivity. Qed.
 Example ex_bad_refused :
-  serve_graphql [] ex_pv ex_exec ex_pq fixed ex_parse ex_api true ex_bad = (HttpError 400, []).
+  serve_graphql [] ex_pv ex_exec ex_pq ex_marshal fixed ex_parse ex_api true ex_bad = (HttpError 400, []).
 Proof. vm_compute. reflexivity. Qed.
 
 (** a malformed socket payload: variables is an array *)
